@@ -138,4 +138,13 @@ example : (match readIndirectObject (objHeader 12 3 ++
         a == [65] && s == [40, 92, 41] && b == [66] && n == [35, 32] && t == [45, 46, 53] && r == [10, 37]
     | _ => false) = true := by decide +kernel
 
+/-- **effective_version_max.**  The version a reader reports is the larger of the header version
+and the catalog's `/Version`: a catalog entry below the header version never lowers it, one above
+raises it, a missing one (0) leaves the header version. -/
+theorem effective_version_max (h c : Nat) :
+    effectiveVersion h c = max h c ∧ h ≤ effectiveVersion h c ∧ c ≤ effectiveVersion h c ∧
+      (c ≤ h → effectiveVersion h c = h) ∧ effectiveVersion h 0 = h := by
+  unfold effectiveVersion
+  refine ⟨?_, ?_, ?_, ?_, ?_⟩ <;> (try split) <;> (try intro _) <;> (try simp) <;> omega
+
 end PdfVerif.C02fiod
